@@ -8,6 +8,18 @@ import StathamModel.Good
 import StathamModel.Lemmas.ListAux
 namespace Statham
 
+theorem ite_pass_ne_crash (b : Bool) (x : Bool) : (if b = true then V.pass else V.ofBool x) ≠ V.crash := by
+  cases b
+  · simpa using V.ofBool_ne_crash x
+  · simp
+
+theorem additionalPropsCheck_ne_crash {ρ} (env : Env) (c : Cls) (kw : Kw) (sub : SubG ρ) (kvs : List (String × JVal)) :
+    additionalPropsCheck env c kw sub kvs ≠ .crash := by
+  unfold additionalPropsCheck
+  cases c <;> simp only [] <;> first
+    | (intro h; cases h)
+    | exact ite_pass_ne_crash _ _
+
 def safeNum : Num → Bool
   | .int i => i.natAbs < 9007199254740992
   | .flt _ _ => true
@@ -332,12 +344,14 @@ theorem createV_nc {env : Env} {c : Cls} {kw : Kw} {sub : VSub} (hk : safeMul kw
           cases hc : sub.propNames with
           | none => simp [optCheck]
           | some f => exact V.all_ne_crash fun kv _ => S.propNames f hc _ rfl
-        · unfold depElemsCheck
-          apply V.all_ne_crash
-          intro d hd
-          split
-          · simp
-          · exact S.deps d hd _ hv
+        · refine V.and_ne_crash ?_ ?_
+          · unfold depElemsCheck
+            apply V.all_ne_crash
+            intro d hd
+            split
+            · simp
+            · exact S.deps d hd _ hv
+          · exact additionalPropsCheck_ne_crash env _ kw sub kvs
       | null => simp
       | bool b => simp
   · have hel : ∀ x ∈ sub.elements.map (fun f => f (.val v)), x ≠ .crash := by
